@@ -87,7 +87,7 @@ fn py(req: Value) -> Result<Value, String> {
 fn cfg(tier: Tier) -> ProgCfg {
     ProgCfg {
         mix: OpMix { write: 12, remove: 3, read: 1, ..OpMix::NONE },
-        wmix: WriteMix { bad_decls: false, meta: true, by_hash: true },
+        wmix: WriteMix { bad_decls: false, meta: true, by_hash: true, rich_matching: false, interfere: false },
         sizes: SizeMix::Small,
         keys: (1, 5),
         blobs: (1, 4),
